@@ -47,6 +47,10 @@ type Manager struct {
 	// Subscriber policies
 	subscribers   map[uint32]*SubscriberQoS // IP -> QoS config
 	subscribersMu sync.RWMutex
+
+	// updateMu serialises SetSubscriberQoS / RemoveSubscriberQoS: a subscriber's
+	// egress and ingress buckets and its tracking entry change together
+	updateMu sync.Mutex
 }
 
 // SubscriberQoS holds per-subscriber QoS settings
@@ -177,6 +181,9 @@ func (m *Manager) SetSubscriberQoS(qos *SubscriberQoS) error {
 	// Convert IP to key
 	key := ipToKey(ip4)
 
+	m.updateMu.Lock()
+	defer m.updateMu.Unlock()
+
 	// Calculate burst size if not set
 	burstBytes := qos.BurstBytes
 	if burstBytes == 0 {
@@ -273,6 +280,9 @@ func (m *Manager) RemoveSubscriberQoS(ip net.IP) error {
 	}
 
 	key := ipToKey(ip4)
+
+	m.updateMu.Lock()
+	defer m.updateMu.Unlock()
 
 	// Remove from eBPF maps
 	if m.qosEgress != nil {
